@@ -82,7 +82,6 @@ int sbdf_tm_create(sbdf_metadata_head* table_metadata, sbdf_tablemetadata** out)
 
 int sbdf_tm_add(sbdf_metadata_head* columndata, sbdf_tablemetadata* tabledata)
 {
-	int oldcap;
 	int error;
 	sbdf_metadata_head* t;
 
@@ -90,8 +89,6 @@ int sbdf_tm_add(sbdf_metadata_head* columndata, sbdf_tablemetadata* tabledata)
 	{
 		return SBDF_ERROR_ARGUMENT_NULL;
 	}
-
-	oldcap = sbdf_calculate_array_capacity(tabledata->no_columns);
 
 	error = sbdf_md_create(&t);
 	if (error)
@@ -108,7 +105,8 @@ int sbdf_tm_add(sbdf_metadata_head* columndata, sbdf_tablemetadata* tabledata)
 
 	sbdf_md_set_immutable(t);
 
-	if (tabledata->no_columns == oldcap)
+	/* metadata built by sbdf_tm_read has an array of exactly no_columns entries, so the
+	   capacity cannot be inferred from the count: always make room for one more */
 	{
 		int newcap = sbdf_calculate_array_capacity(1 + tabledata->no_columns);
 		if (tabledata->column_metadata)
